@@ -157,6 +157,110 @@ def workerEvs : List Out → List Ev
   | .worker e :: t => e :: workerEvs t
   | _ :: t => workerEvs t
 
+/-! ### the upgrade hold (repair FC18f): what follows an Upgrade request is not framed as HTTP
+
+`handleIncomingData` as it is since FC18f.  The header scan also notes `haveUpgrade` (a line whose text before its first colon,
+trimmed and ASCII-lowered, is `upgrade`).  After a request with `haveUpgrade` has been extracted, the rest of the read is stored
+in the session buffer, the session is put into `_upgradePending` (the hold), the request is handed to the pool and the request
+loop STOPS (`break`).  While the hold is set, `handleIncomingData` only appends reads to the session buffer (an overflow of
+`MAX_BUFFER_SIZE` goes through `rejectSession`); nothing is scanned.  The worker that processes the request releases the hold
+when it leaves `processHttpRequest` (scope guard; the plain `HttpServer` declines every upgrade, the request is then dispatched
+like any other); what was held is parsed as HTTP with the next read.  `ioStep`/`connData`/`crun` above are this function for
+runs in which no Upgrade request is extracted (`Lemmas/HttpServerConn.lean`: `ioStepU_eq_ioStep`). -/
+
+/-- one line of the header scan sets `haveUpgrade` -/
+def lineIsUpgrade (line : Bytes) : Bool :=
+  match indexOf? (· == 58) line with
+  | none => false
+  | some colon => lower (trim (line.take colon)) == ascii "upgrade"
+
+/-- `haveUpgrade` for the request at the front of `buf` (all lines of the header section, request line included) -/
+def hasUpgrade (buf : Bytes) : Bool :=
+  match find crlf2 buf 0 with
+  | none => false
+  | some he => (getLines (buf.take he)).any lineIsUpgrade
+
+/-- the request loop with the `break` after an Upgrade request:
+(extracted `requestData`, closed by the I/O thread?, remainder, stopped behind an Upgrade request?) -/
+def drainRawU : Nat → Bytes → List Bytes × Bool × Bytes × Bool
+  | 0, buf => ([], false, buf, false)
+  | fuel + 1, buf =>
+    match extractOne buf with
+    | .needMore => ([], false, buf, false)
+    | .close => ([], true, buf, false)
+    | .request raw n =>
+      if n = 0 then ([], false, buf, false)
+      else if hasUpgrade buf then ([raw], false, buf.drop n, true)
+      else
+        let r := drainRawU fuel (buf.drop n)
+        (raw :: r.1, r.2.1, r.2.2.1, r.2.2.2)
+
+structure ConnU where
+  sess : Sess := {}
+  /-- `sid ∈ _upgradePending` -/
+  hold : Bool := false
+  /-- queued `processHttpRequest(sid, requestData, epoch, holdsUpgrade)` calls -/
+  pending : List (Bytes × Bool) := []
+  deriving DecidableEq, Repr
+
+/-- the last request of a pass that stopped behind an Upgrade request carries `holdsUpgrade = true` -/
+def tagLast : List Bytes → Bool → List (Bytes × Bool)
+  | [], _ => []
+  | [raw], stop => [(raw, stop)]
+  | raw :: t, stop => (raw, false) :: tagLast t stop
+
+def routeU : List (Bytes × Bool) → Nat → List Out × List (Bytes × Bool) × Nat × Bool
+  | [], k => ([], [], k, false)
+  | (raw, _) :: t, 0 => let r := routeU t 0; (.refused raw :: r.1, r.2.1, 0, true)
+  | (raw, f) :: t, k + 1 => let r := routeU t k; (.enqueued raw :: r.1, (raw, f) :: r.2.1, r.2.2.1, r.2.2.2)
+
+/-- mirrors `handleIncomingData` (FC15b + FC18f) with the pool as an oracle -/
+def connDataU (c : ConnU) (seg : Bytes) (slots : Nat) : ConnU × List Out × Nat :=
+  if c.hold then
+    -- an Upgrade request of this session is being processed: reads are only queued behind the stored rest
+    if !c.sess.alive then (c, [], slots)
+    else if c.sess.buffer.length + seg.length > Gen.Http.serverMaxBufferSize then
+      ({ c with sess := { c.sess with alive := false } }, [.ioClose], slots)
+    else ({ c with sess := { c.sess with buffer := c.sess.buffer ++ seg } }, [], slots)
+  else if !c.sess.alive then (c, [], slots)
+  else if c.sess.buffer.length + seg.length > Gen.Http.serverMaxBufferSize then
+    ({ c with sess := { c.sess with alive := false } }, [.ioClose], slots)
+  else
+    let buf := c.sess.buffer ++ seg
+    let r := drainRawU (buf.length + 1) buf
+    let rt := routeU (tagLast r.1 r.2.2.2) slots
+    -- a refusal erases the session (503 completion) and, for the Upgrade request itself, the hold
+    ({ sess := { buffer := r.2.2.1, alive := !(r.2.1 || rt.2.2.2) }, hold := r.2.2.2 && !rt.2.2.2,
+       pending := c.pending ++ rt.2.1 },
+     rt.1 ++ (if r.2.1 then [.ioClose] else []), rt.2.2.1)
+
+/-- a worker runs the oldest queued request; leaving `processHttpRequest` releases the hold of an Upgrade request (the plain
+server declines the upgrade and dispatches the request like any other) -/
+def connWorkU (c : ConnU) : ConnU × List Out :=
+  match c.pending with
+  | [] => (c, [])
+  | (raw, holds) :: t => ({ c with pending := t, hold := if holds then false else c.hold }, [.worker (dispatch raw)])
+
+/-- mirrors `handleSessionClosed`: `_sessionInfo.erase`, `_upgradedSessions.erase`, `_upgradePending.erase` -/
+def connClosedU (c : ConnU) : ConnU := { c with sess := { c.sess with alive := false }, hold := false }
+
+def cstepU (c : ConnU) : COp → ConnU × List Out
+  | .data seg slots => let r := connDataU c seg slots; (r.1, r.2.1)
+  | .work => connWorkU c
+  | .closed => (connClosedU c, [])
+
+def crunU : ConnU → List COp → List Out × ConnU
+  | c, [] => ([], c)
+  | c, op :: ops =>
+    let r1 := cstepU c op
+    let r := crunU r1.1 ops
+    (r1.2 ++ r.1, r.2)
+
+/-- `raws` are what greedy extraction cuts out of `d`, consecutively, from offset `o` up to offset `o'` -/
+def chainTo (d : Bytes) : Nat → List Bytes → Nat → Prop
+  | o, [], o' => o' = o
+  | o, raw :: t, o' => ∃ n, 0 < n ∧ o + n ≤ d.length ∧ extractOne (d.drop o) = .request raw n ∧ chainTo d (o + n) t o'
+
 /-! ### the source shapes this model was written from (pinned against `Gen/Http.lean` in Props/C15.lean) -/
 
 /-- The I/O thread's terminal closes as THIS model reads them (`Gen.Http.serverIoClose`): every close `handleIncomingData`
@@ -165,7 +269,7 @@ so `ioStep` may set `alive := false` at once.  With a plain `closeSession(sid)` 
 close callback, and a later read would be appended behind a buffer that lacks the dropped read. -/
 def ioCloseModelled : List (String × List String) :=
   [("handleIncomingData", ["rejectSession", "rejectSession", "rejectSession", "rejectSession", "rejectSession", "rejectSession",
-      "rejectSession"]),
+      "rejectSession", "rejectSession"]),
    ("rejectSession", ["std::lock_guard<std::mutex> lock(_sessionMutex)", "_sessionInfo.erase(sid)", "closeSession(sid)"])]
 
 /-- the query conversion of `processHttpRequest` as `queryParams` reads it (`Gen.Http.serverQueryParams`) -/
@@ -175,5 +279,19 @@ def queryParamsModelled : List String :=
    "std::istringstream queryStream(queryString)", "std::string param", "while (std::getline(queryStream, param, '&'))",
    "auto eqPos = param.find('=')", "if (eqPos != std::string::npos)", "std::string key = param.substr(0, eqPos)",
    "std::string value = param.substr(eqPos + 1)", "req.params[key] = value"]
+
+/-- the upgrade hold as `connDataU` reads it (`Gen.Http.serverUpgradeHold`): the hold test and its overflow at the head of the
+function, `haveUpgrade` set by the `upgrade` key of the header scan, the hold inserted where the rest is stored, erased when
+`tryEnqueue` refuses, and the loop left behind an Upgrade request (`Gen.Http.serverUpgradeBreak`) -/
+def upgradeHoldModelled : List String :=
+  ["bool pendingOverflow = false", "if (_upgradePending.count(sid) > 0)", "pendingOverflow = true", "if (pendingOverflow)",
+   "bool haveUpgrade = false", "else if (key == \"upgrade\")", "haveUpgrade = true", "if (haveUpgrade)",
+   "_upgradePending.insert(sid)", "if (!_threadPool.tryEnqueue([this, sid, requestData, …]()",
+   "processHttpRequest(sid, requestData, …)", "if (haveUpgrade)", "_upgradePending.erase(sid)", "if (haveUpgrade)"]
+
+/-- `handleSessionClosed` as `connClosedU` reads it (`Gen.Http.serverSessionClosed`) -/
+def sessionClosedModelled : List String :=
+  ["_sessionInfo.erase(it)", "_upgradedSessions.erase(sid)", "_upgradedSessions.erase(sid)", "_upgradePending.erase(sid)",
+   "onSessionClosed(sid)"]
 
 end Iora.Http.Srv
